@@ -7,7 +7,7 @@ LEVEL = 'proof'
 EXPLANATION = ('Exceptional postconditions on the real Env.from_file (nothing escapes whatever open() / pickle.load() raise -- pickle.load is given its documented '
                'contract "signals any Exception subclass" -- and the result is None or an Env), Env.to_file (one open(path, "wb"), one dump of exactly the entry of '
                'the task or of the whole environment, environment untouched), Env.merge_done_tasks (exactly the DONE entries are merged; loop invariant) and '
-               'read_env (only DONE entries are reported; loop invariant, from_file and merge_done_tasks used through their contracts). Obligations generated '
+               'read_env (only DONE entries are reported; loop invariant, from_file and merge_done_tasks used through their contracts) and write_env (per-entry trace contract: every entry with an output directory is written once, whatever its status, to output_dir/filename). Obligations generated '
                'from the AST and discharged by z3. Every byte prefix of every written file of 6 sample environments is the labelled bounded stand-in.')
 ASSUMPTIONS = [
     'pickle.load signals any Exception subclass and otherwise returns an arbitrary object; pickle.dump does not raise on picklable payloads; '
@@ -16,14 +16,14 @@ ASSUMPTIONS = [
     'for writing, then written): decided for every prefix by the bounded unit',
     'A-env-entries: every entry of a persisted Env carries a status key',
     'Env entries are maps whose values are abstracted by parametricity (only status is inspected)',
-    'write_env / the producers of output_dir (written path == read path) are not under a discharged contract here: bounded unit only',
+    'the producers of output_dir (written path == read path) are not under a discharged contract here: bounded unit only',
     'A-log: LOGGER calls dropped',
 ]
 TRUSTED = ['z3 unsat answers (cvc5 cross-check in the thorough tier)', 'CPython ast module', 'pyvc engine (symbolic executor, libspec encodings)']
 
 
 def units(tier):
-    return ['from_file', 'to_file', 'merge_done', 'read_env', 'native']
+    return ['from_file', 'to_file', 'merge_done', 'read_env', 'write_env', 'native']
 
 
 def run_unit(unit, tier, seed, known):
@@ -37,6 +37,8 @@ def run_unit(unit, tier, seed, known):
         return eu.unit_merge_done(tier, ID)
     if unit == 'read_env':
         return eu.unit_read_env(tier, ID)
+    if unit == 'write_env':
+        return eu.unit_write_env(tier, ID)
     if unit == 'native':
         return {'bounded': [pn.sweep(tier, seed)]}
     raise KeyError(unit)
